@@ -22,7 +22,7 @@ META = {
     "assumptions": ["only internal consistency is decidable offline; agreement with the SWIFT/ISO source documents is not"],
     "min_distinct": {"quick": 25000, "thorough": 25000},
 }
-FILLERS = {"quick": 1, "thorough": 5}
+FILLERS = {"quick": 1, "thorough": 12}
 
 
 def plan(tier, seed):
